@@ -20,7 +20,13 @@ for n in sys.argv[2:]:
     shutil.rmtree(t)
     vs = []
     if os.path.exists(vf):
-        vs = [v for v in json.load(open(vf)) if v.get('verdict') == 'violated' and 'Canary' not in v.get('construct', '')]
+        allv = [v for v in json.load(open(vf)) if 'Canary' not in v.get('construct', '') and v.get('rule') not in ('FLOOR', 'MUTANT')]
+        vs = [v for v in allv if v.get('verdict') == 'violated']
+        weak = False
+        if not vs:
+            # only lost anchors / undecided sites: the check fails, but not at the construct of the fault
+            vs = [v for v in allv if v.get('verdict') == 'undecided']
+            weak = bool(vs)
         os.remove(vf)
     if not vs:
         print(n, 'STILL SILENT'); continue
@@ -35,6 +41,10 @@ for n in sys.argv[2:]:
     m['expect_caught'] = True
     m['expect'] = v['rule'] + '/' + v['construct']
     m['check_report'] = [f"{x['pos']}: [{x['rule']}] {x['construct']}: {x['msg']}"[:400] for x in vs[:3]]
+    if weak:
+        m['weak'] = "reported only through an undecided obligation (a construct the rule no longer recognises), not at the fault itself"
+    else:
+        m.pop('weak', None)
     if was_missed:
         doc = ''
         try:
